@@ -51,7 +51,11 @@ LEVEL_NOTE = ('inputs only (no state between calls: message prefix, stdin, '
               'cwd, random generator and SIGINT handler are reset per call)')
 RULE = ('for every tool and every registered sub-command (introspected from '
         'the helper classes): all vectors of 0..arity(+1) tokens over '
-        "{-1,0,1,2,3,1.5,x,''}, each option of the sub-command and one "
+        "{-1,0,1,2,3,1.5,x,''}, all full-length numeric vectors of a box "
+        '{1..4} ({0..5} thorough), every graph-taking sub-command on 8+ small/'
+        'degenerate/just-outside-domain graph specifications per graph type '
+        'crossed with all tokens for its numeric arguments, each option of the '
+        'sub-command and one '
         'unknown option before/after small vectors, every main option and '
         'output format selector (-of, -l, -o file.ext, -q, --varnames) on '
         'small vectors, graph specifications from the grammar of '
@@ -81,6 +85,15 @@ ASSUMPTIONS = [
     '(open() fails with OSError ELOOP) when mode 000 does not bite',
     'a command that runs longer than 30 s is counted as cap_hit, not as a '
     'violation (the property does not bound running time)',
+    'observation aids inside the check process only (no change of '
+    'behaviour): build_formula/transform_cnf of the helper classes are '
+    'wrapped by a pass-through that records the stage reached, and a silent '
+    'exit 0 is re-run through cli() to name the exception main() swallowed; '
+    'both only refine violation keys, never the verdict',
+    'the modules of cnfgen.clihelpers are imported once per process so that '
+    "the tools' helper discovery takes its `in sys.modules` branch instead "
+    'of re-compiling them on every call (verdicts cross-checked against '
+    'fresh interpreters on the core subset)',
 ]
 
 MARK = {'dimacs': 'c', 'opb': '*', 'latex': '%'}
@@ -523,9 +536,14 @@ SPECS_MORE = {
                ['empty', '4', 'addedges', '2'],
                ['complete', '3', 'splitedges', '1'],
                ['kthlist', '{FX}/simple_valid.kthlist'],
-               ['{FX}/simple_valid.gml']],
+               ['{FX}/simple_valid.gml'],
+               # just outside the domain of the constructions
+               ['grid', '0'], ['torus', '2', '0'], ['empty', '0'],
+               ['complete', '0'], ['gnp', '0', '.5'], ['gnm', '1', '1'],
+               ['gnd', '2', '2'], ['gnd', '3', '1']],
     'dag': [['path', '3'], ['tree', '2'], ['pyramid', '3'],
-            ['kthlist', '{FX}/dag_valid.kthlist'], ['{FX}/dag_valid.dot']],
+            ['kthlist', '{FX}/dag_valid.kthlist'], ['{FX}/dag_valid.dot'],
+            ['path', '-1'], ['tree', '-1'], ['pyramid', '-1']],
     'bipartite': [['glrp', '3', '3', '.5'], ['glrp', '2', '3', '0'],
                   ['glrm', '3', '3', '4'], ['glrm', '2', '2', '4'],
                   ['glrd', '3', '4', '2'], ['regular', '4', '2', '1'],
@@ -533,7 +551,12 @@ SPECS_MORE = {
                   ['empty', '1', '3'], ['complete', '2', '2', 'plantbiclique', '1', '1'],
                   ['empty', '2', '2', 'addedges', '2'],
                   ['matrix', '{FX}/bipartite_valid.matrix'],
-                  ['{FX}/bipartite_valid.kthlist']],
+                  ['{FX}/bipartite_valid.kthlist'],
+                  ['complete', '0', '1'], ['empty', '1', '0'],
+                  ['glrd', '1', '1', '0'], ['glrd', '1', '1', '2'],
+                  ['glrp', '0', '1', '.5'], ['glrm', '1', '1', '2'],
+                  ['regular', '2', '3', '1'], ['shift', '1', '1'],
+                  ['shift', '2', '2', '3']],
 }
 
 
